@@ -191,6 +191,26 @@ def v_rules(schema: Schema, rep: Report):
                 continue
             ok = c.args and hex_.t(c.args[0]) == vp
             rep.check("V-R6", "String.convert[str]:decodes-the-text", bool(ok), "" if ok else "the decoder is not applied to the element text", tloc(p, h.fn))
+            # ... and what it returns is what the reader hands on: a method applied to the decoded text afterwards
+            # (.replace / .translate / .strip ...) cannot tell a character an entity stood for from one that was in the
+            # document itself
+            from .source import parent as _par
+
+            post = None
+            cur_ = c
+            while True:
+                up_ = _par(cur_)
+                if isinstance(up_, ast.Attribute) and up_.value is cur_ and isinstance(_par(up_), ast.Call) and _par(up_).func is up_ and up_.attr not in ("encode",):
+                    post = up_.attr
+                    break
+                if isinstance(up_, ast.Assign) and len(up_.targets) == 1 and isinstance(up_.targets[0], ast.Name):
+                    # follow the local the decoded text is bound to
+                    nm_ = up_.targets[0].id
+                    uses_ = [x for x in ast.walk(hfn) if isinstance(x, ast.Attribute) and isinstance(x.value, ast.Name) and x.value.id == nm_ and isinstance(_par(x), ast.Call) and _par(x).func is x and x.lineno >= up_.lineno]
+                    post = next((u_.attr for u_ in uses_ if u_.attr in ("replace", "translate", "strip", "lstrip", "rstrip", "lower", "upper", "casefold", "expandtabs", "split", "join", "title")), None)
+                    break
+                break
+            rep.check("V-R6", "String.convert[str]:decoded-text-handed-on-unaltered", post is None, f"the decoded text goes through .{post}(...) before it is returned: characters that stood in the document literally (e.g. a NO-BREAK SPACE, U+00A0) are rewritten together with the ones the entities produced - the model holds text that is not in the document" if post else "", tloc(p, h.fn))
     elif repl:
         order = _replace_order(p, hfn)
         if order is None:
